@@ -351,6 +351,13 @@ class SyncInterpreter(BaseInterpreter[TContext, TEvent]):
         #    applies to both paths.
         processed = 0
         limit = getattr(self.machine, "max_iterations", 1000)
+        # 📬 Events already queued when the drain starts were accepted from
+        #    outside (a `send_events()` burst, or events left behind by a
+        #    `send()` that raised): they are not a runaway chain and do not
+        #    count towards the ceiling - only what is enqueued while draining
+        #    does. Counting them discarded the tail of any burst longer than
+        #    `max_iterations`.
+        budget = limit + len(self._event_queue)
         try:
             while self._event_queue:
                 # 🏁 A machine that has completed, failed or been stopped
@@ -361,7 +368,7 @@ class SyncInterpreter(BaseInterpreter[TContext, TEvent]):
                     self._event_queue.clear()
                     break
                 processed += 1
-                if processed > limit:
+                if processed > budget:
                     logger.error(
                         "🛑 Exceeded %d queued events in a single macrostep on "
                         "'%s'. This usually means an action raises the event "
